@@ -540,6 +540,11 @@ impl<'c> VisitMut for Rw<'c> {
                     }
                 }
             }
+            // R8: CS::Ksf::default()  ->  ksf_default::<CS::Ksf>()   (Default::default assumed deterministic)
+            Expr::Call(c) if c.args.is_empty() && ts(&*c.func) == "CS :: Ksf :: default" => {
+                self.cx.rule("R8.ksf_default");
+                *e = parse_quote!( ksf_default::<CS::Ksf>() );
+            }
             // R8: to_be_bytes
             Expr::MethodCall(mc) if mc.method == "to_be_bytes" && mc.args.is_empty() => {
                 mc.method = ident("to_be_bytes_v");
@@ -725,6 +730,8 @@ fn process_items(cx: &mut Ctx, items: Vec<Item>, impl_counter: &mut usize) {
                 strip_where(cx, &mut en.generics);
                 en.vis = parse_quote!(pub);
                 for v in en.variants.iter_mut() {
+                    // explicit discriminants are dropped (Verus' macro rejects them; no `as` cast on these enums is extracted)
+                    if v.discriminant.take().is_some() { cx.rule("R3.discriminant"); }
                     process_attrs(cx, &mut v.attrs);
                     for f in v.fields.iter_mut() { process_attrs(cx, &mut f.attrs); }
                 }
